@@ -2,6 +2,7 @@
 phase: the connection object is put into CONNECTED state with a real plaintext helper and a fake
 transport.  Used by the sweeps that only need 'a session is up' (C13 usage, C15 commands, C16/C17)."""
 from __future__ import annotations
+import common
 
 import asyncio
 
@@ -43,7 +44,7 @@ def make_client(api_version=(1, 10), **kw):
     loop = fh.loop()
     client = APIClient("verif.local", 6053, None, **kw)
     stops = []
-    conn = APIConnection(client._params, lambda expected: stops.append(expected), False, "verif")
+    conn = APIConnection(client._params, lambda expected: stops.append(expected), common.debug_flip(), "verif")
     tr = fh.FakeTransport()
     helper = APIPlaintextFrameHelper(connection=conn, client_info="verif", log_name="verif")
     helper.connection_made(tr)
